@@ -102,79 +102,181 @@ def run(ctx):
     # ---------------------------------------------------------------- ZigZag
     zz = p.func("ZigZagGroupIter", "_iter")
     ctx.touch(zz)
-    srcs = find_calls(zz, lambda c: norm(c.func).endswith("LevelOrderGroupIter"))
-    others = [c for c in walk_own(zz.node) if isinstance(c, ast.Call) and isinstance(c.func, ast.Name) and c.func.id.endswith("Iter")
-              and c not in srcs]
-    if len(srcs) != 1 or others:
-        ctx.viol("I2", zz, zz.node, "ZigZag groups do not come from exactly one LevelOrderGroupIter", construct="ZigZag: group source")
-        return
-    src = srcs[0]
-    start = src.args[0] if src.args else None
-    chp = zz.posparams[0]
-    if start is not None and norm(start) == "%s[0]" % chp:
-        ctx.inst("I2", zz, src, "LevelOrderGroupIter over the start node")
+    ok, why, where = zigzag_alternation(zz)
+    if ok:
+        ctx.inst("I2", zz, where, why)
     else:
-        ctx.viol("I2", zz, src, "the group iterator does not start at the start node (children[0])")
-    itname = None
-    for n in walk_own(zz.node):
-        if isinstance(n, ast.Assign) and n.value is src and isinstance(n.targets[0], ast.Name):
-            itname = n.targets[0].id
-    ys = []
-    loop = None
-    for n in walk_own(zz.node):
-        if isinstance(n, (ast.While, ast.For)):
-            loop = n
-    if isinstance(loop, ast.For) and _parity_idiom(zz, loop, src):
-        ctx.inst("I2", zz, loop, "groups reversed on odd levels by a parity counter starting at an even constant")
-        ctx.floor("I1", 16)
-        ctx.floor("I2", 9)
-        return
-    if loop is None or itname is None:
-        ctx.viol("I2", zz, zz.node, "alternation loop over the group iterator not found", construct="ZigZag: loop")
-        return
+        ctx.viol("I2", zz, where if where is not None else zz.node, "ZigZag does not yield the level groups of a LevelOrderGroupIter over the "
+                 "start node in strict alternation unchanged / reversed starting with unchanged: %s" % why, construct="ZigZag: %s" % why)
+    ctx.floor("I1", 16)
+    ctx.floor("I2", 7)
 
-    def classify(e):
-        """U = group unchanged, R = group reversed, ? = anything else"""
-        if isinstance(e, ast.Call) and norm(e.func) == "next" and [norm(a) for a in e.args] == [itname]:
-            return "U"
+
+class _Unknown(Exception):
+    pass
+
+
+def _const_eval(e, env):
+    """evaluate a flag/counter expression over known constants (bools and small ints)"""
+    if isinstance(e, ast.Constant) and isinstance(e.value, (bool, int)):
+        return e.value
+    if isinstance(e, ast.Name):
+        if e.id in env:
+            return env[e.id]
+        raise _Unknown(e.id)
+    if isinstance(e, ast.UnaryOp):
+        v = _const_eval(e.operand, env)
+        if isinstance(e.op, ast.Not):
+            return not v
+        if isinstance(e.op, ast.USub):
+            return -v
+        raise _Unknown("unary")
+    if isinstance(e, ast.BinOp):
+        l, r = _const_eval(e.left, env), _const_eval(e.right, env)
+        ops = {ast.Add: lambda: l + r, ast.Sub: lambda: l - r, ast.Mod: lambda: l % r, ast.BitAnd: lambda: l & r,
+               ast.BitXor: lambda: l ^ r, ast.Mult: lambda: l * r, ast.FloorDiv: lambda: l // r}
+        for k, fn in ops.items():
+            if isinstance(e.op, k):
+                return fn()
+        raise _Unknown("binop")
+    if isinstance(e, ast.Compare) and len(e.ops) == 1:
+        l, r = _const_eval(e.left, env), _const_eval(e.comparators[0], env)
+        ops = {ast.Eq: l == r, ast.NotEq: l != r, ast.Lt: l < r, ast.Gt: l > r, ast.LtE: l <= r, ast.GtE: l >= r, ast.Is: l is r, ast.IsNot: l is not r}
+        for k, v in ops.items():
+            if isinstance(e.ops[0], k):
+                return v
+    if isinstance(e, ast.BoolOp):
+        vals = [_const_eval(v, env) for v in e.values]
+        return all(vals) if isinstance(e.op, ast.And) else any(vals)
+    if isinstance(e, ast.IfExp):
+        return _const_eval(e.body if _const_eval(e.test, env) else e.orelse, env)
+    raise _Unknown(type(e).__name__)
+
+
+def zigzag_alternation(zz):
+    """Abstract run of ZigZag's loop over a two-valued (parity / boolean) state: the k-th group drawn from the
+    LevelOrderGroupIter must be yielded unchanged for even k and reversed for odd k.  Returns (ok, text, node)."""
+    from .common import resolve_local
+    srcs = [c for c in walk_own(zz.node) if isinstance(c, ast.Call) and norm(c.func).endswith("LevelOrderGroupIter")]
+    other_iters = [c for c in walk_own(zz.node) if isinstance(c, ast.Call) and isinstance(c.func, ast.Name) and c.func.id.endswith("Iter")
+                   and c not in srcs]
+    if len(srcs) != 1 or other_iters:
+        return False, "groups do not come from exactly one LevelOrderGroupIter", zz.node
+    src = srcs[0]
+    chp = zz.posparams[0]
+    start = src.args[0] if src.args else next((k.value for k in src.keywords if k.arg == "node"), None)
+    start = resolve_local(zz, start) if start is not None else None
+    if start is None or norm(start) != "%s[0]" % chp:
+        return False, "the group iterator does not start at the start node (%s[0])" % chp, src
+    itnames = {t.id for n in walk_own(zz.node) if isinstance(n, ast.Assign) and n.value is src for t in n.targets if isinstance(t, ast.Name)}
+    loops = [n for n in walk_own(zz.node) if isinstance(n, (ast.While, ast.For))]
+    if len(loops) != 1:
+        return False, "expected exactly one loop over the groups", zz.node
+    loop = loops[0]
+    outside = [y for y in walk_own(zz.node) if isinstance(y, (ast.Yield, ast.YieldFrom)) and not any(y is x for x in ast.walk(loop))]
+    if outside:
+        return False, "groups are yielded outside the alternation loop", outside[0]
+    env = {}
+    # constant initialisations before the loop
+    for n in walk_own(zz.node):
+        if isinstance(n, ast.Assign) and len(n.targets) == 1 and isinstance(n.targets[0], ast.Name) and not any(n is x for x in ast.walk(loop)):
+            try:
+                env[n.targets[0].id] = _const_eval(n.value, env)
+            except _Unknown:
+                pass
+    group_var, counter_var, counter_start = None, None, 0
+
+    def is_src(e):
+        return e is src or (isinstance(e, ast.Name) and e.id in itnames)
+    if isinstance(loop, ast.For):
+        it = loop.iter
+        if isinstance(it, ast.Call) and norm(it.func) == "enumerate" and it.args and is_src(it.args[0]):
+            st = it.args[1] if len(it.args) > 1 else next((k.value for k in it.keywords if k.arg == "start"), None)
+            try:
+                counter_start = _const_eval(st, env) if st is not None else 0
+            except _Unknown:
+                return False, "enumerate start is not a constant", it
+            if not (isinstance(loop.target, ast.Tuple) and len(loop.target.elts) == 2 and all(isinstance(e, ast.Name) for e in loop.target.elts)):
+                return False, "unrecognised loop target", loop
+            counter_var, group_var = loop.target.elts[0].id, loop.target.elts[1].id
+        elif is_src(it) and isinstance(loop.target, ast.Name):
+            group_var = loop.target.id
+        else:
+            return False, "the loop does not iterate the group iterator", loop
+    elif not (isinstance(loop.test, ast.Constant) and loop.test.value is True):
+        return False, "unrecognised while condition", loop
+    seq = []
+    drawn = [0]
+
+    class Group:
+        def __init__(self, k, rev=False):
+            self.k, self.rev = k, rev
+
+    def gval(e, genv):
+        """value of an expression that denotes a group"""
+        if isinstance(e, ast.Name) and isinstance(genv.get(e.id), Group):
+            return genv[e.id]
+        if isinstance(e, ast.Call) and norm(e.func) == "next" and e.args and is_src(e.args[0]) and len(e.args) == 1:
+            g = Group(drawn[0])
+            drawn[0] += 1
+            return g
         if isinstance(e, ast.Call) and norm(e.func) in ("tuple", "list") and len(e.args) == 1:
             inner = e.args[0]
-            if isinstance(inner, ast.Call) and norm(inner.func) == "reversed" and len(inner.args) == 1 and classify(inner.args[0]) == "U":
-                return "R"
-            if classify(inner) == "U":
-                return "U"
-        if isinstance(e, ast.Subscript) and isinstance(e.slice, ast.Slice) and norm(e.slice) == "::-1" and classify(e.value) == "U":
-            return "R"
-        return "?"
-    body_stmts = []
-    for st in loop.body:
-        if isinstance(st, ast.Try):
-            body_stmts.extend(st.body)
-        else:
-            body_stmts.append(st)
-    seq = []
-    for st in body_stmts:
-        for y in ast.walk(st):
-            if isinstance(y, ast.Yield):
-                seq.append(classify(y.value) if y.value is not None else "?")
-    outside = [y for y in walk_own(zz.node) if isinstance(y, (ast.Yield, ast.YieldFrom)) and not any(y is x for x in ast.walk(loop))]
-    pattern = "".join(seq)
-    if isinstance(loop, ast.For) and _parity_idiom(zz, loop, src, classify_with=None):
-        ctx.inst("I2", zz, loop, "groups reversed on odd levels by a parity counter starting at an even constant")
-        ctx.floor("I1", 16)
-        ctx.floor("I2", 9)
-        return
-    if pattern and len(pattern) % 2 == 0 and pattern == "UR" * (len(pattern) // 2) and not outside and isinstance(loop, ast.While):
-        ctx.inst("I2", zz, loop, "groups yielded in strict alternation %s starting unchanged" % pattern)
-    else:
-        ctx.viol("I2", zz, loop, "ZigZag does not yield the level groups in strict alternation unchanged/reversed starting with unchanged "
-                 "(yield pattern %r%s)" % (pattern, ", plus yields outside the loop" if outside else ""), construct="ZigZag: yield pattern %s" % pattern)
-    # the loop ends only when the group iterator is exhausted
-    hs = [h for n in ast.walk(loop) if isinstance(n, ast.Try) for h in n.handlers]
-    if any("StopIteration" in norm(h.type) for h in hs if h.type is not None):
-        ctx.inst("I2", zz, loop, "loop ends on StopIteration of the group iterator")
-    ctx.floor("I1", 16)
-    ctx.floor("I2", 9)
+            if isinstance(inner, ast.Call) and norm(inner.func) == "reversed" and len(inner.args) == 1:
+                g = gval(inner.args[0], genv)
+                return Group(g.k, not g.rev)
+            return gval(inner, genv)
+        if isinstance(e, ast.Subscript) and isinstance(e.slice, ast.Slice) and norm(e.slice) == "::-1":
+            g = gval(e.value, genv)
+            return Group(g.k, not g.rev)
+        if isinstance(e, ast.IfExp):
+            return gval(e.body if _const_eval(e.test, genv) else e.orelse, genv)
+        raise _Unknown("group expression %s" % norm(e))
+
+    def run(stmts, genv):
+        for st in stmts:
+            if isinstance(st, ast.Try):
+                run(st.body, genv)
+                continue
+            if isinstance(st, ast.Expr) and isinstance(st.value, ast.Yield):
+                seq.append(gval(st.value.value, genv))
+            elif isinstance(st, ast.Assign) and len(st.targets) == 1 and isinstance(st.targets[0], ast.Name):
+                try:
+                    genv[st.targets[0].id] = gval(st.value, genv)
+                except _Unknown:
+                    genv[st.targets[0].id] = _const_eval(st.value, genv)
+            elif isinstance(st, ast.AugAssign) and isinstance(st.target, ast.Name):
+                cur = _const_eval(st.target, genv)
+                v = _const_eval(st.value, genv)
+                genv[st.target.id] = _const_eval(ast.BinOp(left=ast.Constant(value=cur), op=st.op, right=ast.Constant(value=v)), {})
+            elif isinstance(st, ast.If):
+                run(st.body if _const_eval(st.test, genv) else st.orelse, genv)
+            elif isinstance(st, (ast.Pass,)):
+                continue
+            elif isinstance(st, ast.Expr) and isinstance(st.value, ast.Constant):
+                continue
+            else:
+                raise _Unknown("statement %s" % type(st).__name__)
+    try:
+        for k in range(6):
+            if isinstance(loop, ast.For):
+                env[group_var] = Group(drawn[0])
+                drawn[0] += 1
+                if counter_var:
+                    env[counter_var] = counter_start + k
+            run(loop.body, env)
+    except _Unknown as exc:
+        return False, "unrecognised alternation idiom (%s)" % exc, loop
+    if len(seq) < 6:
+        return False, "fewer groups are yielded than drawn", loop
+    for i, g in enumerate(seq):
+        if g.k != i:
+            return False, "the %d-th yield is group %d of the level order (a group is skipped, repeated or reordered)" % (i, g.k), loop
+        if g.rev != (i % 2 == 1):
+            return False, "level %d is yielded %s" % (i, "reversed" if g.rev else "unchanged"), loop
+    if drawn[0] != len(seq):
+        return False, "a drawn group is not yielded", loop
+    return True, "groups 0..%d of the LevelOrderGroupIter over the start node yielded unchanged/reversed alternately (abstract run over the parity state)" % (len(seq) - 1), loop
 
 
 def _parity_idiom(zz, loop, src, classify_with=None):
